@@ -214,6 +214,8 @@ pub struct Gen {
     /// welcomes already handled (processed) per recipient
     welcome_seen: BTreeSet<EvRef>,
     welcome_decided: BTreeSet<EvRef>,
+    /// outsiders already invited once (guard `no_reinvite`)
+    invited: BTreeSet<usize>,
     pub hostile_hook: Option<fn(&mut Gen, &World) -> Option<Step>>,
 }
 
@@ -231,6 +233,7 @@ impl Gen {
             msg_tag: 0,
             welcome_seen: BTreeSet::new(),
             welcome_decided: BTreeSet::new(),
+            invited: BTreeSet::new(),
             hostile_hook: None,
         }
     }
@@ -300,6 +303,7 @@ impl Gen {
         let admin = w.is_admin(node, g);
         let wts = &self.cfg.weights;
         let mut cands: Vec<(u64, Op)> = vec![(3, Op::SelfUpdate { g })];
+        let mut invite_choice: Option<Vec<usize>> = None;
         if admin {
             cands.push((3, Op::UpdateData { g, variant: (self.sched.below(3)) as u8, arg: self.sched.below(1000) as u32 }));
             cands.push((1, Op::UpdateData { g, variant: 5 + self.sched.below(2) as u8, arg: 0 }));
@@ -314,12 +318,14 @@ impl Gen {
                 let outsiders: Vec<usize> = (0..w.nodes.len())
                     .filter(|n| !members.contains(n) && !w.nodes[*n].key_packages.is_empty())
                     .filter(|n| w.gview(*n, g).is_none())
+                    .filter(|n| !(self.cfg.guards.contains("no_reinvite") && self.invited.contains(n)))
                     .collect();
                 if !outsiders.is_empty() {
                     let k = 1 + self.sched.below(outsiders.len().min(2) as u64) as usize;
                     let mut o = outsiders.clone();
                     self.sched.shuffle(&mut o);
                     o.truncate(k);
+                    invite_choice = Some(o.clone());
                     cands.push((wts.invite * 2, Op::AddMembers { g, who: o }));
                 }
             }
@@ -331,7 +337,11 @@ impl Gen {
             }
         }
         let ws: Vec<u64> = cands.iter().map(|c| c.0).collect();
-        self.sched.weighted(&ws).map(|i| cands[i].1.clone())
+        let chosen = self.sched.weighted(&ws).map(|i| cands[i].1.clone());
+        if let (Some(Op::AddMembers { .. }), Some(o)) = (&chosen, invite_choice) {
+            self.invited.extend(o);
+        }
+        chosen
     }
 
     fn push_commit(&mut self, w: &mut World, node: usize, dt: u32, op: Op, g: usize) {
